@@ -443,6 +443,12 @@ func (c *FnCtx) doCallInner(st *State, v ssa.Value, cc *ssa.CallCommon, ins ssa.
 		args = append(args, c.val(st, a))
 	}
 	ignoreContract := c.spec != nil && (c.spec.options["havoc:"+callee.Name()] || c.spec.options["havoc:*"])
+	if ignoreContract && !c.spec.options["havoc:"+callee.Name()] {
+		// havoc:* keeps pure callees without preconditions: they are just function symbols
+		if sp := c.specOf(callee); sp != nil && sp.pure && len(sp.requires) == 0 {
+			ignoreContract = false
+		}
+	}
 	if sp := c.specOf(callee); !ignoreContract && sp != nil && callee != nil && (len(sp.requires)+len(sp.ensures) > 0 || sp.hasModifies || sp.pure) {
 		c.applyContract(st, v, callee, sp, args, ins)
 		return
